@@ -358,10 +358,20 @@ def replay_rng(rp):
 
 
 def replay_frame(rp):
-    return dict(reproduced=False, note=f"write to {rp.get('where')}: see verifier output")
+    """a write to an object that outlives the call shows up as a dependence on the history of
+    the process: try the stored two-conversion histories"""
+    for fn in (replay_history, replay_leak):
+        try:
+            rep = fn(rp)
+        except Exception as e:  # noqa: BLE001
+            rep = dict(reproduced=False, note=repr(e))
+        if rep.get("reproduced"):
+            rep["frame_write"] = rp.get("where")
+            return rep
+    return dict(reproduced=False, note=f"write to {rp.get('where')}: see verifier output; the stored histories do not expose it")
 
 
-def replay_history(rp):
+def replay_history(rp=None):
     """same object, option changed between two conversions / helper-needing script first"""
     code = (
         "import oneliner, oneliner.config as C, random, re, subprocess, sys, json\n"
